@@ -486,7 +486,7 @@ func Run(o *core.Options) int {
 	if o.Replay != "" {
 		return replay(o, r)
 	}
-	k, nMain, nLeak, kc := 2, 6, 2, 1
+	k, nMain, nLeak, kc := 2, 4, 2, 1
 	if o.Thorough() {
 		k, nMain, nLeak, kc = 2, 96, 24, 1
 	}
